@@ -223,8 +223,18 @@ fn omega__rights_hints_and_status() {
                 for pt in &pts {
                     let r = right_of(&s, pt);
                     let (h, st) = om.get(&r).unwrap_or_else(|| panic!("C01: omega lacks the right of point {pt:?}"));
-                    let want_h = pt.iter().any(|qa| s.get_attribute(qa).unwrap().get_encryption_hint() == EncryptionHint::Hybridized);
-                    let want_ro = pt.iter().any(|qa| s.get_attribute(qa).unwrap().get_status() == AttributeStatus::DecryptOnly);
+                    // expected values from the declaration (hint bits in creation order, the one disabled attribute), not from the accessors under test
+                    let declared_hyb = |qa: &QualifiedAttribute| {
+                        let d: usize = qa.dimension[1..].parse().unwrap();
+                        let a: usize = qa.name[1..].parse().unwrap();
+                        let k: usize = shape[..d].iter().map(|x| x.1).sum::<usize>() + a;
+                        (hints >> k) & 1 == 1
+                    };
+                    let want_h = pt.iter().any(|qa| declared_hyb(qa));
+                    let want_ro = disabled < nattr && pt.contains(&attrs[disabled]);
+                    for qa in pt {
+                        vchk!((s.get_attribute(qa).unwrap().get_encryption_hint() == EncryptionHint::Hybridized) == declared_hyb(qa), "C11: attribute {qa:?} no longer reports the hint it was declared with (disabled: {})", disabled < nattr && *qa == attrs[disabled]);
+                    }
                     vchk!((*h == EncryptionHint::Hybridized) == want_h, "C11: the right of {pt:?} is hybridized iff one of its attributes is (hints {hints:b})");
                     vchk!((*st == AttributeStatus::DecryptOnly) == want_ro, "C06: the right of {pt:?} is decrypt-only iff one of its attributes is disabled");
                 }
